@@ -52,7 +52,9 @@ pub(crate) fn convert(
     let mut mask_all = false;
     if units == Units::ObjectBoundingBox {
         if let Some(bbox) = object_bbox {
-            rect = rect.bbox_transform(bbox)
+            rect = crate::checked_bbox_transform(rect, bbox).log_none(|| {
+                log::warn!("Mask '{}' has an invalid size. Skipped.", node.element_id())
+            })?;
         } else {
             // When mask units are `objectBoundingBox` and bbox is zero-sized - the whole
             // element should be masked.
